@@ -370,7 +370,13 @@ def b_history(case, ctx):
         compare_all(g0, m0, [(a, b) for a in m0.nodes for b in m0.nodes], "original after edits of its copy", k0 + ["copy_then_edit_copy"])
         check_structure(g0, m0, "original after edits of its copy", "copy_then_edit_copy")
     cls = sorted({x.split(":")[0] + (":" + x.split(":")[1] if x.startswith("update") else "") for x in kinds})
-    ctx.note(nontrivial=nontrivial, cls=cls or ["empty"])
+    for op in case.get("ops", []):
+        for x in op:
+            if isinstance(x, dict) and x.get("kind") in ("quaternion", "axis_angle"):
+                v = x.get("q") or x.get("axis")
+                if abs(math.sqrt(sum(c * c for c in v)) - 1.0) > 1e-3:
+                    cls.append("update:non_unit_" + x["kind"])
+    ctx.note(nontrivial=nontrivial, cls=sorted(set(cls)) or ["empty"])
 
 
 # ------------------------------------------------------------------------ strategy
@@ -397,9 +403,12 @@ def transform_spec(draw):
         if n < 0.1:
             q = [1.0, 0.0, 0.0, 0.0]
             n = 1.0
-        return {"kind": "quaternion", "q": [x / n for x in q], "t": t}
+        # quaternion_matrix and rotation_matrix normalise what they are given: any non-zero length is a valid input
+        ln = draw(st.sampled_from([1.0, 1.0, 0.5, 2.0, 3.7, 10.0]))
+        return {"kind": "quaternion", "q": [x / n * ln for x in q], "t": t}
     if kind == "axis_angle":
-        return {"kind": "axis_angle", "axis": draw(gm.unit_vec()), "angle": draw(_f(-3.1, 3.1)), "t": t}
+        ln = draw(st.sampled_from([1.0, 1.0, 0.5, 2.0, 3.7, 10.0]))
+        return {"kind": "axis_angle", "axis": [x * ln for x in draw(gm.unit_vec())], "angle": draw(_f(-3.1, 3.1)), "t": t}
     if kind == "translation":
         return {"kind": "translation", "t": t or [1.0, 2.0, 3.0]}
     return {"kind": "none"}
@@ -479,4 +488,4 @@ def s_enum(ctx):
         ctx.enumerate("C09.history", cases, label="structural_histories_len6_over_3_names")
 
 
-REQUIRED_CLASSES["C09"] = ["update:reparent", "remove_node", "update:edge_change", "copy", "base_frame"]
+REQUIRED_CLASSES["C09"] = ["update:reparent", "remove_node", "update:edge_change", "copy", "base_frame", "update:non_unit_quaternion", "update:non_unit_axis_angle"]
